@@ -254,13 +254,19 @@ impl PendingSubscriptionSink {
 		if success {
 			let (tx, rx) = mpsc::channel(1);
 			self.subscribers.lock().insert(self.uniq_sub.clone(), (self.inner.clone(), rx));
+			let unsubscribe = IsUnsubscribed(tx);
+			let guard = SubscriberGuard {
+				subscribers: self.subscribers,
+				uniq_sub: self.uniq_sub.clone(),
+				unsubscribe: unsubscribe.clone(),
+			};
 			Ok(SubscriptionSink {
 				inner: self.inner,
 				method: self.method,
-				subscribers: self.subscribers,
 				uniq_sub: self.uniq_sub,
-				unsubscribe: IsUnsubscribed(tx),
+				unsubscribe,
 				_permit: Arc::new(self.permit),
+				_guard: Arc::new(guard),
 			})
 		} else {
 			panic!(
@@ -302,14 +308,34 @@ pub struct SubscriptionSink {
 	inner: MethodSink,
 	/// MethodCallback.
 	method: &'static str,
-	/// Shared Mutex of subscriptions for this method.
-	subscribers: Subscribers,
 	/// Unique subscription.
 	uniq_sub: SubscriptionKey,
 	/// A future to that fires once the unsubscribe method has been called.
 	unsubscribe: IsUnsubscribed,
 	/// Subscription permit
 	_permit: Arc<SubscriptionPermit>,
+	/// Removes the subscription from the subscribers once the last clone of the sink is dropped.
+	_guard: Arc<SubscriberGuard>,
+}
+
+/// Shared by all clones of a [`SubscriptionSink`]; the subscription stays active
+/// until it's unsubscribed or the last clone of its sink is dropped.
+#[derive(Debug)]
+struct SubscriberGuard {
+	/// Shared Mutex of subscriptions for this method.
+	subscribers: Subscribers,
+	/// Unique subscription.
+	uniq_sub: SubscriptionKey,
+	/// Whether the subscription has been unsubscribed.
+	unsubscribe: IsUnsubscribed,
+}
+
+impl Drop for SubscriberGuard {
+	fn drop(&mut self) {
+		if !self.unsubscribe.is_unsubscribed() {
+			self.subscribers.lock().remove(&self.uniq_sub);
+		}
+	}
 }
 
 impl SubscriptionSink {
@@ -413,14 +439,6 @@ impl SubscriptionSink {
 
 	fn is_active_subscription(&self) -> bool {
 		!self.unsubscribe.is_unsubscribed()
-	}
-}
-
-impl Drop for SubscriptionSink {
-	fn drop(&mut self) {
-		if self.is_active_subscription() {
-			self.subscribers.lock().remove(&self.uniq_sub);
-		}
 	}
 }
 
